@@ -154,10 +154,11 @@ Section Reject.
   (* ... in general: a line that no port accepts WHEN ITS TURN COMES (unknown address, an
      argument the port's specification does not take, an element index beyond '#N', a port
      below a pointer sub-tree that is absent at that moment) makes the result negative, and
-     the lines behind it are not dispatched *)
+     the lines behind it are not dispatched; of an array line the elements in front of the
+     one that is not accepted have been applied (partial_line) *)
   Lemma apply_all_stops : forall a pre l post st s,
     apply_all a pre st = (s, true) -> apply_line a l s = None ->
-    apply_all a (pre ++ l :: post) st = (s, false).
+    apply_all a (pre ++ l :: post) st = (partial_line a l s, false).
   Proof.
     induction pre as [|x pre IH]; intros l post st s Hp Hl; simpl in *.
     - inversion Hp; subst. rewrite Hl. reflexivity.
@@ -169,12 +170,19 @@ Section Reject.
     load_order apropos fuel (map (fun l => (l_path l, l)) ls) = Some order ->
     pick ls dummy_line order = pre ++ l :: post ->
     apply_all a pre st = (s, true) -> apply_line a l s = None ->
-    dispatch_printed apropos fuel a its st = Some (r, st') -> r < 0 /\ st' = s.
+    dispatch_printed apropos fuel a its st = Some (r, st') -> r < 0 /\ st' = partial_line a l s.
   Proof.
     intros a its st ls tot order pre l post s r st' Hnn Hs Ho Hpk Hpre Hl H.
     unfold dispatch_printed in H. rewrite Hs, Ho, Hpk in H.
     rewrite (apply_all_stops a pre l post st s Hpre Hl) in H. inversion H; subst.
     destruct (scan_items_spec its ls tot true Hnn Hs) as [Ht _]. split; [lia | reflexivity].
+  Qed.
+
+  (* a scalar line that is not accepted leaves the state as it was *)
+  Lemma partial_line_scalar : forall a l s, l_array l = false -> partial_line a l s = s.
+  Proof.
+    intros a l s H. unfold partial_line. destruct (find_port a (l_path l)); [|reflexivity].
+    rewrite H, andb_false_r. reflexivity.
   Qed.
 
   (* the causes that do not depend on the state *)
